@@ -41,6 +41,8 @@ type runObs struct {
 	resp   []byte
 	status string // ok | error | panic | exec-error
 	leaves sexp.Node
+	eff    sexp.Node // the document as selected under this run's variable values (when it has directives)
+	hasEff bool
 }
 
 type caseData struct {
@@ -210,9 +212,15 @@ func prepare(i int, r *rng.R, thorough bool) *caseData {
 		case k < 11:
 			c.stream = "env"
 			c.doc, c.stats = genValidDoc(r, c.schema, false)
+			if r.Chance(1, 3) {
+				decorate(r, c.doc, c.stats)
+			}
 		case k < 14:
 			c.stream = "loose"
 			c.doc, c.stats = genValidDoc(r, c.schema, true)
+			if r.Chance(1, 3) {
+				decorate(r, c.doc, c.stats)
+			}
 		case k < 15:
 			c.stream = "clash"
 			c.doc, c.note = genClashDoc(r, c.schema)
@@ -287,10 +295,30 @@ func prepare(i int, r *rng.R, thorough bool) *caseData {
 	if thorough {
 		nWorlds = 4
 	}
+	withDirs := c.doc.hasDirs()
 	for w := 0; w < nWorlds; w++ {
+		// every Boolean! variable gets a value; the first two worlds take all true / all false so that
+		// both outcomes of every variable-driven @include / @skip are executed
+		vars := map[string]interface{}{}
+		for _, op := range c.doc.ops {
+			for _, v := range op.vars {
+				switch w {
+				case 0:
+					vars[v] = true
+				case 1:
+					vars[v] = false
+				default:
+					vars[v] = r.Bool()
+				}
+			}
+		}
 		resp := graphql.Execute(&graphql.Request{Context: context.Background(), Schema: real, Query: c.text,
-			OperationName: c.opName, InitialValue: &wobj{typ: root, seed: r.Uint64()}})
+			OperationName: c.opName, VariableValues: vars, InitialValue: &wobj{typ: root, seed: r.Uint64()}})
 		ro := &runObs{}
+		if withDirs {
+			// what the operation selects under these values (directives evaluated and dropped)
+			ro.eff, ro.hasEff = c.doc.prune(vars).sexp(), true
+		}
 		if len(resp.Errors) > 0 || resp.Data == nil {
 			ro.status = "exec-error"
 			ro.resp = []byte("null")
@@ -393,6 +421,10 @@ func (c *caseData) sexp() sexp.Node {
 	for _, ro := range c.runs {
 		if ro.status == "exec-error" {
 			runs = append(runs, sexp.T("run", sexp.Sym("null"), sexp.Sym("exec-error"), ro.leaves))
+			continue
+		}
+		if ro.hasEff {
+			runs = append(runs, sexp.T("run", jsonToSexp(ro.resp), sexp.Sym(ro.status), ro.leaves, ro.eff))
 			continue
 		}
 		runs = append(runs, sexp.T("run", jsonToSexp(ro.resp), sexp.Sym(ro.status), ro.leaves))
